@@ -140,6 +140,21 @@ def write_gen(files):
     return changed
 
 
+def extract_files(mod, ctx):
+    """`mod.extract(ctx)` plus, when the property module declares SHAPES = [(lean name, file, function)], the control
+    skeletons (extract/shape.py) of the functions its hand-written model transcribes, appended to its Gen file."""
+    files = mod.extract(ctx)
+    spec = getattr(mod, "SHAPES", None)
+    if spec:
+        from extract import shape
+        rel = "MlVerif/Gen/%s.lean" % mod.ID
+        end = "end MlVerif.Gen.%s" % mod.ID
+        txt = files[rel]
+        i = txt.rindex(end)
+        files[rel] = txt[:i] + shape.lean_defs_from_source(ctx, spec) + "\n" + txt[i:]
+    return files
+
+
 def lake_build(targets, timeout=1500):
     p = subprocess.run(["lake", "build"] + list(targets), cwd=LEAN, stdout=subprocess.PIPE,
                        stderr=subprocess.STDOUT, text=True, timeout=timeout)
@@ -323,7 +338,7 @@ def run_check(mod, tier, seed, replay_path=None):
     with LakeLock():
         if hasattr(mod, "extract"):
             try:
-                files = mod.extract(ctx)
+                files = extract_files(mod, ctx)
                 gen_changed = write_gen(files)
             except Exception as e:
                 broken.append({"kind": "extractor", "name": "extract(%s)" % pid,
@@ -384,11 +399,21 @@ def run_check(mod, tier, seed, replay_path=None):
     ctx.broken = broken
     violations, search_stats = [], {}
     try:
-        r = mod.search(ctx, corr.disagreements)
+        try:
+            r = mod.search(ctx, corr.disagreements)
+        except Exception as e1:  # noqa: BLE001
+            if not corr.disagreements:
+                raise
+            # the inputs on which model and implementation disagreed are only hints: a hint the oracle cannot digest
+            # must not cost the search - run it again without them (recorded in the evidence)
+            ctx.search_retry = "%s: %s" % (type(e1).__name__, str(e1)[:200])
+            r = mod.search(ctx, [])
         if isinstance(r, tuple):
             violations, search_stats = r
         else:
             violations = r
+        if getattr(ctx, "search_retry", None):
+            search_stats = dict(search_stats or {}, search_restarted_without_hints=ctx.search_retry)
     except Exception as e:
         broken.append({"kind": "search", "name": "search(%s)" % pid,
                        "detail": "%s: %s\n%s" % (type(e).__name__, e, traceback.format_exc()[-1500:])})
